@@ -4,10 +4,13 @@ package main
 
 import (
 	"fmt"
+	"go/constant"
 	"go/token"
 	"go/types"
 	"strings"
 )
+
+func constantString(s string) constant.Value { return constant.MakeString(s) }
 
 type redirSpec struct {
 	Fn       string
@@ -211,236 +214,182 @@ func stripSite2(ctx, v Val) string {
 	return "<different context value>"
 }
 
-// checkSigningString recognises the two assembly idioms of the tree:
-//   (A) signatureInputString: ordered [][2]string literal, loop writing QueryEscape(k)+"="+QueryEscape(v) joined by '&'
-//   (B) ordered key slice + map: loop appending url.Values{k: v}.Encode() joined by "&"
+// checkSigningString normalises the string handed to SignString into a list of (key, value, escaper) pairs joined by
+// "&" — whether it was assembled through a bytes.Buffer (QueryEscape(k) "=" QueryEscape(v) writes) or by
+// concatenating url.Values{k: v}.Encode() fragments; loops over literal tables are executed as written by the
+// engine — and compares it with the parameters actually sent.
 func checkSigningString(c *Ctx, t *Terminal, fname, label string, sg *Event, qs Val, sent map[string]string, relay bool) {
 	pos := c.P.InstrPos(sg.Instr)
-	s := sg.Args[1]
-	wantKeys := []string{"SAMLRequest", "SigAlg"}
-	// (A)
-	if cv, ok := s.(*CallV); ok && shortName(cv.Callee) == "(*bytes.Buffer).String" {
-		sb := cv.Args[0]
-		// params literal: stores to a local array [i][0] / [i][1]
-		type kv struct{ k, v string }
-		params := map[int64]*kv{}
-		var arr Val
-		for _, e := range t.stores() {
-			outer, ok := e.Addr.(*IndexAddrV)
-			if !ok {
-				continue
-			}
-			inner, ok := outer.X.(*IndexAddrV)
-			if !ok {
-				continue
-			}
-			i, ok1 := constInt(inner.I)
-			j, ok2 := constInt(outer.I)
-			if !ok1 || !ok2 {
-				continue
-			}
-			arr = inner.X
-			_ = arr
-			if params[i] == nil {
-				params[i] = &kv{}
-			}
-			if j == 0 {
-				params[i].k = ap(e.Val)
-			} else {
-				params[i].v = ap(e.Val)
-			}
-		}
-		var keys []string
-		okVals := true
-		for i := int64(0); i < int64(len(params)); i++ {
-			p := params[i]
-			if p == nil {
-				okVals = false
-				break
-			}
-			k := strings.Trim(p.k, `"`)
-			keys = append(keys, k)
-			// signed value = Get(qs, k) or the very value sent
-			getForm := "(net/url.Values).Get(" + ap(qs) + ", " + p.k + ")"
-			if p.v != getForm && p.v != sent[k] {
-				okVals = false
-				c.bad("C14-R4", fname, "signed value of "+k+" is the value sent ["+label+"]", pos, "signing string covers "+p.v+" for "+k+", but the URL carries "+sent[k])
-			}
-		}
-		hasRelay := false
-		for _, k := range keys {
-			if k == "RelayState" {
-				hasRelay = true
-			}
-		}
-		if hasRelay {
-			wantKeys = []string{"SAMLRequest", "RelayState", "SigAlg"}
-		}
-		c.check(strings.Join(keys, ",") == strings.Join(wantKeys, ","), "C14-R3", fname, "signing string order ["+label+"]", pos, strings.Join(wantKeys, ", "), "signing string lists "+strings.Join(keys, ", ")+", want "+strings.Join(wantKeys, ", "))
-		getRelayEmpty := t.atoms()["(net/url.Values).Get("+ap(qs)+", \"RelayState\") == \"\""]
-		getRelayNonEmpty := t.atoms()["!((net/url.Values).Get("+ap(qs)+", \"RelayState\") == \"\")"]
-		if (relay && getRelayEmpty) || (!relay && getRelayNonEmpty) {
-			// infeasible under the stated assumption that the endpoint's own query carries no RelayState parameter:
-			// Get(qs, "RelayState") is then exactly the value added above
-			c.Assume["the configured IdP endpoint URL does not itself carry SAMLRequest / RelayState / SigAlg / Signature parameters (url.Values.Get then returns exactly the value this code added)"] = true
+	atoms := t.atoms()
+	// infeasible under documented assumptions: url.Values.Encode of a non-empty Values is non-empty; the endpoint's own
+	// query carries no RelayState (Get then returns exactly what was added)
+	for a := range atoms {
+		if strings.HasPrefix(a, "(net/url.Values).Encode(") && strings.HasSuffix(a, `) == ""`) {
+			c.Assume["url.Values.Encode of a Values holding a parameter is never the empty string"] = true
 			return
 		}
-		if relay && !hasRelay {
-			c.bad("C14-R3", fname, "RelayState signed when present ["+label+"]", pos, "a non-empty relay state is sent but not covered by the signature")
+	}
+	getRelayEmpty := atoms["(net/url.Values).Get("+ap(qs)+", \"RelayState\") == \"\""]
+	getRelayNonEmpty := atoms["!((net/url.Values).Get("+ap(qs)+", \"RelayState\") == \"\")"]
+	if (relay && getRelayEmpty) || (!relay && getRelayNonEmpty) {
+		c.Assume["the configured IdP endpoint URL does not itself carry SAMLRequest / RelayState / SigAlg / Signature parameters (url.Values.Get then returns exactly the value this code added)"] = true
+		return
+	}
+	// infeasible: bytes.Buffer.Len() > 0 is true exactly after something was written to that buffer
+	for _, f := range t.St.facts {
+		b, ok := f.Cond.(*BinV)
+		if !ok || b.Op != token.LSS || !isConstInt(b.X, 0) {
+			continue
 		}
-		if okVals {
-			c.ok("C14-R4", fname, "signed values are the values sent ["+label+"]", pos, "Get(qs, key) / same value")
+		lc, ok := b.Y.(*CallV)
+		if !ok || shortName(lc.Callee) != "(*bytes.Buffer).Len" {
+			continue
 		}
-		// writer loop: per generic iteration the buffer receives [ "&" unless first ] QueryEscape(k) "=" QueryEscape(v)
-		// (in one or several writes), over the whole ordered table
-		var parts []string
-		sep := false
-		var flatten func(v Val) []Val
-		flatten = func(v Val) []Val {
-			if b, ok := v.(*BinV); ok && b.Op == token.ADD {
-				return append(flatten(b.X), flatten(b.Y)...)
-			}
-			return []Val{v}
-		}
-		piece := func(v Val) string {
-			if cv, ok := v.(*CallV); ok && cv.Callee == "net/url.QueryEscape" {
-				return "QE(" + ap(cv.Args[0]) + ")"
-			}
-			return ap(v)
-		}
-		okWriters := true
+		written := false
 		for _, e := range t.St.events {
-			if e.Kind != EvCall || len(e.Args) == 0 || e.Args[0].Key() != sb.Key() {
+			if e.Kind == EvCall && e.Seq < f.Seq && len(e.Args) > 0 && e.Args[0].Key() == lc.Args[0].Key() && strings.HasPrefix(shortName(e.Callee), "(*bytes.Buffer).Write") {
+				written = true
+			}
+		}
+		if written != f.Pol {
+			c.Assume["bytes.Buffer.Len() is positive exactly after a Write* on that buffer"] = true
+			return
+		}
+	}
+	var flatten func(v Val) []Val
+	flatten = func(v Val) []Val {
+		if b, ok := v.(*BinV); ok && b.Op == token.ADD {
+			return append(flatten(b.X), flatten(b.Y)...)
+		}
+		return []Val{v}
+	}
+	// tokens of the signed string
+	var toks []Val
+	s := sg.Args[1]
+	if cv, ok := s.(*CallV); ok && shortName(cv.Callee) == "(*bytes.Buffer).String" {
+		sb := cv.Args[0]
+		for _, e := range t.St.events {
+			if e.Kind != EvCall || len(e.Args) == 0 || e.Args[0].Key() != sb.Key() || e.Seq > sg.Seq {
 				continue
 			}
 			switch shortName(e.Callee) {
 			case "(*bytes.Buffer).WriteString":
-				for _, f := range flatten(e.Args[1]) {
-					if s, ok := constString(f); ok && s == "&" && len(parts) == 0 {
-						sep = true
-						continue
-					}
-					parts = append(parts, piece(f))
-				}
+				toks = append(toks, flatten(e.Args[1])...)
 			case "(*bytes.Buffer).WriteByte", "(*bytes.Buffer).WriteRune":
-				switch ap(e.Args[1]) {
-				case "38":
-					if len(parts) == 0 {
-						sep = true
-					} else {
-						parts = append(parts, `"&"`)
-					}
-				case "61":
-					parts = append(parts, `"="`)
-				default:
-					parts = append(parts, "byte:"+ap(e.Args[1]))
+				if k, ok := constInt(e.Args[1]); ok && k > 0 && k < 128 {
+					toks = append(toks, constOf(constantString(string(rune(k))), types.Typ[types.String]))
+				} else {
+					toks = append(toks, e.Args[1])
 				}
 			case "(*bytes.Buffer).Len", "(*bytes.Buffer).String":
 			default:
-				okWriters = false
 				c.bad("C14-R1", fname, "signing buffer writer "+shortName(e.Callee)+" ["+label+"]", c.P.InstrPos(e.Instr), "unexpected writer to the signing string buffer")
+				return
 			}
 		}
-		good := okWriters && len(parts) == 3 && strings.HasPrefix(parts[0], "QE(") && strings.HasSuffix(parts[0], "[*][0])") && parts[1] == `"="` &&
-			strings.HasPrefix(parts[2], "QE(") && strings.HasSuffix(parts[2], "[*][1])") && strings.TrimSuffix(parts[0], "[0])") == strings.TrimSuffix(parts[2], "[1])")
-		a := t.atoms()
-		exhausted, through := false, false
-		for k := range a {
-			if strings.HasPrefix(k, "!(((i* + 1) + 1) < ") || strings.HasPrefix(k, "!((i* + 1) < ") {
-				exhausted = true
-			}
-			if strings.HasPrefix(k, "(i* + 1) < ") || strings.HasPrefix(k, "i* < ") {
-				through = true
-			}
+	} else {
+		toks = flatten(s)
+	}
+	// merge adjacent constant strings and split them at '&' / '='
+	type pair struct{ k, v, esc string }
+	var pairs []pair
+	i := 0
+	bad := func(why string) {
+		var ts []string
+		for _, x := range toks {
+			ts = append(ts, ap(x))
 		}
-		if !through {
-			c.bad("C14-R1", fname, "signing string written by a loop over the ordered table ["+label+"]", pos, "no generic iteration over the parameter table on this path")
+		c.undecided("C14-R1", fname, "signing string shape ["+label+"]", pos, why+"; tokens: "+strings.Join(ts, " "))
+	}
+	constTok := func(j int) (string, bool) {
+		if j >= len(toks) {
+			return "", false
+		}
+		return constString(toks[j])
+	}
+	for i < len(toks) {
+		if len(pairs) > 0 {
+			if sep, ok := constTok(i); !ok || sep != "&" {
+				bad("pairs are not joined by a literal '&'")
+				return
+			}
+			i++
+		}
+		if i >= len(toks) {
+			bad("dangling separator")
 			return
 		}
-		c.check(good && exhausted, "C14-R1", fname, "signing string = QueryEscape(k)=QueryEscape(v) pairs over the whole ordered table ["+label+"]", pos, strings.Join(parts, " "),
-			"per iteration the signing buffer receives ["+strings.Join(parts, " ")+"], want [QE(key) \"=\" QE(value)] over the whole ordered table")
-		// separator: written exactly when this is not the first pair (buffer non-empty / index > 0)
-		notFirst, first := false, false
-		for k := range a {
-			if strings.HasPrefix(k, "0 < (*bytes.Buffer).Len(") || k == "0 < i*" || k == "0 < (i* + 1)" {
-				notFirst = true
-			}
-			if strings.HasPrefix(k, "!(0 < (*bytes.Buffer).Len(") || k == "!(0 < i*)" || k == "!(0 < (i* + 1))" {
-				first = true
-			}
-		}
-		switch {
-		case notFirst:
-			c.check(sep, "C14-R1", fname, "pairs joined by '&' ["+label+"]", pos, "& written when this is not the first pair", "pairs are not joined by '&'")
-		case first:
-			c.check(!sep, "C14-R1", fname, "no leading '&' ["+label+"]", pos, "first pair has no separator", "a separator is written before the first pair")
-		default:
-			c.bad("C14-R1", fname, "separator decided by position ["+label+"]", pos, "the '&' separator is not conditional on the pair being the first one")
-		}
-		return
-	}
-	// (B)
-	var order []string
-	for _, e := range t.stores() {
-		if ia, ok := e.Addr.(*IndexAddrV); ok {
-			if a, ok := ia.X.(*AllocV); ok && a.Comment == "slicelit" {
-				if k, ok := constString(e.Val); ok {
-					if i, ok := constInt(ia.I); ok && int(i) == len(order) {
-						order = append(order, k)
+		switch x := toks[i].(type) {
+		case *CallV:
+			switch shortName(x.Callee) {
+			case "net/url.QueryEscape":
+				k, ok := constString(x.Args[0])
+				eq, ok2 := constTok(i + 1)
+				var vq *CallV
+				if i+2 < len(toks) {
+					vq, _ = toks[i+2].(*CallV)
+				}
+				if !ok || !ok2 || eq != "=" || vq == nil || shortName(vq.Callee) != "net/url.QueryEscape" {
+					bad("expected QueryEscape(key) \"=\" QueryEscape(value)")
+					return
+				}
+				pairs = append(pairs, pair{k, ap(vq.Args[0]), "QueryEscape"})
+				i += 3
+			case "(net/url.Values).Encode":
+				u := x.Args[0]
+				var adds []*Event
+				for _, e := range t.St.events {
+					if e.Kind == EvCall && shortName(e.Callee) == "(net/url.Values).Add" && e.Args[0].Key() == u.Key() && e.Seq < sg.Seq {
+						adds = append(adds, e)
 					}
 				}
+				_, fresh := u.(*AllocV)
+				if len(adds) != 1 || !fresh {
+					bad("an Encode() fragment does not come from a fresh url.Values holding exactly one parameter")
+					return
+				}
+				k, ok := constString(adds[0].Args[1])
+				if !ok {
+					bad("fragment key is not a constant")
+					return
+				}
+				pairs = append(pairs, pair{k, ap(adds[0].Args[2]), "Values.Encode"})
+				i++
+			default:
+				bad("unexpected fragment " + ap(x))
+				return
 			}
+		default:
+			bad("unexpected fragment " + ap(toks[i]))
+			return
 		}
 	}
-	mp := map[string]string{}
-	for _, e := range t.St.events {
-		if e.Kind == EvMapUpdate && e.Val != nil {
-			if k, ok := constString(e.I); ok {
-				mp[k] = ap(e.Val)
-			}
+	var keys []string
+	hasRelay := false
+	for _, p := range pairs {
+		keys = append(keys, p.k)
+		hasRelay = hasRelay || p.k == "RelayState"
+	}
+	want := []string{"SAMLRequest", "SigAlg"}
+	if hasRelay {
+		want = []string{"SAMLRequest", "RelayState", "SigAlg"}
+	}
+	c.check(strings.Join(keys, ",") == strings.Join(want, ","), "C14-R3", fname, "signing string order ["+label+"]", pos, strings.Join(want, ", "), "signing string lists "+strings.Join(keys, ", ")+", want "+strings.Join(want, ", "))
+	c.check(hasRelay == relay, "C14-R3", fname, "RelayState signed exactly when sent ["+label+"]", pos, fmt.Sprint(relay), fmt.Sprintf("relay state sent=%v but covered by the signature=%v", relay, hasRelay))
+	okVals := true
+	for _, p := range pairs {
+		getForm := "(net/url.Values).Get(" + ap(qs) + ", \"" + p.k + "\")"
+		if p.v != getForm && p.v != sent[p.k] {
+			okVals = false
+			c.bad("C14-R4", fname, "signed value of "+p.k+" is the value sent ["+label+"]", pos, "signing string covers "+p.v+" for "+p.k+", but the URL carries "+sent[p.k])
 		}
 	}
-	want := []string{"SAMLRequest", "RelayState", "SigAlg"}
-	c.check(strings.Join(order, ",") == strings.Join(want, ","), "C14-R3", fname, "ordered key table ["+label+"]", pos, strings.Join(want, ", "), "ordered parameter table is "+strings.Join(order, ", "))
-	for _, k := range []string{"SAMLRequest", "SigAlg"} {
-		c.check(mp[k] == sent[k], "C14-R4", fname, "signed value of "+k+" is the value sent ["+label+"]", pos, sent[k], "signing string covers "+mp[k]+" for "+k+", but the URL carries "+sent[k])
+	if okVals {
+		c.ok("C14-R4", fname, "signed values are the values sent ["+label+"]", pos, "same value / Get(qs, key)")
 	}
-	if relay {
-		c.check(mp["RelayState"] == sent["RelayState"] && sent["RelayState"] != "", "C14-R4", fname, "signed value of RelayState is the value sent ["+label+"]", pos, sent["RelayState"], "signing string covers "+mp["RelayState"]+" for RelayState, but the URL carries "+sent["RelayState"])
-	} else {
-		_, has := mp["RelayState"]
-		c.check(!has, "C14-R3", fname, "RelayState not signed when empty ["+label+"]", pos, "absent", "an empty RelayState is covered by the signature but not sent")
+	esc := map[string]bool{}
+	for _, p := range pairs {
+		esc[p.esc] = true
 	}
-	// the string signed is the loop-carried accumulator (or its value after the generic iteration)
-	sa := ap(s)
-	okAcc := false
-	switch x := s.(type) {
-	case *LoopPhiV:
-		okAcc = true
-	case *BinV:
-		okAcc = strings.Contains(sa, "(net/url.Values).Encode(") && strings.Contains(sa, `"&"`)
-		_ = x
-	case *CallV:
-		okAcc = shortName(x.Callee) == "(net/url.Values).Encode"
-	}
-	c.check(okAcc, "C14-R1", fname, "signed string is the ordered accumulation ["+label+"]", pos, sa, "SignString receives "+sa+", not the accumulated ordered pairs")
-	// generic iteration: e = Values{k: map[k]}.Encode(), joined with "&"
-	nIter := 0
-	for _, e := range t.St.events {
-		if e.Kind != EvCall || shortName(e.Callee) != "(net/url.Values).Add" || e.Args[0].Key() == qs.Key() {
-			continue
-		}
-		nIter++
-		k, v := ap(e.Args[1]), ap(e.Args[2])
-		good := strings.HasSuffix(k, "[*]")
-		if iv, ok := e.Args[2].(*IndexV); ok {
-			_, isMap := iv.X.Type().Underlying().(*types.Map)
-			good = good && isMap && iv.I.Key() == e.Args[1].Key()
-		} else {
-			good = false
-		}
-		_, fresh := e.Args[0].(*AllocV)
-		c.check(good && fresh, "C14-R1", fname, "pair encoded as url.Values{k: table[k]}.Encode() ["+label+"]", c.P.InstrPos(e.Instr), k+" => "+v, "signing fragment encodes "+k+" => "+v+" (want the ordered key and its value from the parameter table, in a fresh url.Values)")
-	}
-	_ = types.Typ
+	c.ok("C14-R1", fname, "signing string = escaped key=value pairs joined by '&' ["+label+"]", pos, fmt.Sprintf("%d pairs via %v", len(pairs), sortedStrings(esc)))
 }
